@@ -63,6 +63,19 @@ Theorem C18_pass1_removes_anonymous : forall env lib body s' decls,
 Proof. intros env lib body. exact (ras_na env lib body None I). Qed.
 Print Assumptions C18_pass1_removes_anonymous.
 
+(* in pass 2 as invoked by remove_syntactic_sugar (on the output of pass 1) the
+   `unreachable!()` of remove_tuple_from_expression and `rhe_values.remove(0)` never
+   fire, for every input: the only panic sites left in pass 2 are into_report on a
+   meta without file id and split_string *)
+Theorem C18_pass2_unreachable_never_fires : forall env lib body m stmts decls c v su s,
+  remove_anonymous_from_statement env lib None body = DOk (Block m stmts, decls) ->
+  separate_declarations decls [] [] [] = DOk (c, v, su) ->
+  remove_tuples_from_statement
+    (Block m ([InitializationBlock m VVar v] ++ su ++ [InitializationBlock m VComponent c] ++ stmts)) = DPanic s ->
+  s = site_report_file_id \/ s = site_split_at.
+Proof. exact pass2_unreachable_never_fires. Qed.
+Print Assumptions C18_pass2_unreachable_never_fires.
+
 (* ---- hypotheses are satisfiable / the definitions compute ------------------ *)
 
 Definition m0 (a b : N) : meta := Meta a b (Some 0%N).
